@@ -93,6 +93,7 @@ func cmdRun(argv []string) int {
 		fmt.Fprintln(os.Stderr, err)
 		return 2
 	}
+	initCPUTokens(*workers)
 	res := Explore(l.prog, fn, args, ExploreOpts{Workers: *workers, Solver: *solver, TimeoutMs: 60000, Budget: *budget, MaxPaths: *maxPaths, MaxFailures: *maxFail, SolverLog: *slog, Verbose: *verbose})
 	printResult(res)
 	return 0
